@@ -341,24 +341,47 @@ fn answer<M: MemoizerKind>(
     )
 }
 
+fn settings<M: MemoizerKind>(bundle: &mut RawBundle<FluentResource, M>, iso: bool, tr: &str, fm: &str) {
+    bundle.set_use_isolating(iso);
+    match tr {
+        "upper" => bundle.set_transform(Some(tr_upper)),
+        "pseudo" => bundle.set_transform(Some(tr_pseudo)),
+        "bracket" => bundle.set_transform(Some(tr_bracket)),
+        _ => bundle.set_transform(None),
+    }
+    match fm {
+        "numbr" => bundle.set_formatter(Some(fm_numbr::<M>)),
+        "strwrap" => bundle.set_formatter(Some(fm_strwrap::<M>)),
+        _ => bundle.set_formatter(None),
+    }
+}
+
+/// C08 `pre=1`: what happened BEFORE must not matter - (1) a bundle of a sibling locale (same language, other
+/// region) formats every request first, (2) the bundle under test formats every request once under ANOTHER
+/// configuration (isolation flipped, another transform, another formatter) and is then re-configured.
+fn sibling(loc: &str) -> String {
+    match loc {
+        "pt" | "pt-BR" | "pt-AO" => "pt-PT".into(),
+        _ => match loc.split_once('-') {
+            Some((l, _)) => l.to_string(),
+            None => format!("{}-ZZ", loc),
+        },
+    }
+}
+
+fn other_settings<M: MemoizerKind>(bundle: &mut RawBundle<FluentResource, M>, cfg: &str) {
+    let tr = if kv(cfg, "tr") == "upper" { "bracket" } else { "upper" };
+    let fm = if kv(cfg, "fm") == "numbr" { "strwrap" } else { "numbr" };
+    settings(bundle, kv(cfg, "iso") != "1", tr, fm);
+}
+
 fn configure<M: MemoizerKind>(
     bundle: &mut RawBundle<FluentResource, M>,
     cfg: &str,
     ress: &str,
     fns: &str,
 ) -> Option<()> {
-    bundle.set_use_isolating(kv(cfg, "iso") == "1");
-    match kv(cfg, "tr") {
-        "upper" => bundle.set_transform(Some(tr_upper)),
-        "pseudo" => bundle.set_transform(Some(tr_pseudo)),
-        "bracket" => bundle.set_transform(Some(tr_bracket)),
-        _ => bundle.set_transform(None),
-    }
-    match kv(cfg, "fm") {
-        "numbr" => bundle.set_formatter(Some(fm_numbr::<M>)),
-        "strwrap" => bundle.set_formatter(Some(fm_strwrap::<M>)),
-        _ => bundle.set_formatter(None),
-    }
+    settings(bundle, kv(cfg, "iso") == "1", kv(cfg, "tr"), kv(cfg, "fm"));
     if fns != "-" {
         for name in fns.split(',') {
             let _ = match name {
@@ -455,10 +478,28 @@ fn run_one(payload: &str) -> String {
             reqs.iter().map(|r| answer(&b, r, shared.as_mut())).collect()
         }
     } else {
+        let pre = kv(cfg, "pre") == "1";
+        if pre {
+            if let Ok(sl) = sibling(kv(cfg, "loc")).parse::<LanguageIdentifier>() {
+                let mut sb: RawBundle<FluentResource, intl_memoizer::IntlLangMemoizer> = RawBundle::new(vec![sl]);
+                if configure(&mut sb, cfg, ress, fns).is_some() {
+                    for r in &reqs {
+                        let _ = answer(&sb, r, None);
+                    }
+                }
+            }
+        }
         let mut b: RawBundle<FluentResource, intl_memoizer::IntlLangMemoizer> =
             RawBundle::new(vec![loc]);
         if configure(&mut b, cfg, ress, fns).is_none() {
             return "bad-case".into();
+        }
+        if pre {
+            other_settings(&mut b, cfg);
+            for r in &reqs {
+                let _ = answer(&b, r, None);
+            }
+            settings(&mut b, kv(cfg, "iso") == "1", kv(cfg, "tr"), kv(cfg, "fm"));
         }
         let mut shared: Option<Vec<FluentError>> = if kv(cfg, "ev") == "shared" { Some(vec![]) } else { None };
         reqs.iter().map(|r| answer(&b, r, shared.as_mut())).collect()
